@@ -170,6 +170,11 @@ def mismatch_confs():
     out.append(('wrong-id', base(b_over={'peer_auth': {"id": "mallory@openikev2", "psk": "testing"}})))
     out.append(('wrong-id-type', base(b_over={'peer_auth': {"id": "alice.openikev2", "psk": "testing"}})))
     out.append(('initiator-rejects-responder', base(a_over={'peer_auth': {"id": "bob@openikev2", "psk": "wrong-secret"}})))
+    out.append(('initiator-expects-other-id', base(a_over={'peer_auth': {"id": "mallory@openikev2", "psk": "testing2"}})))
+    out.append(('initiator-expects-other-id-type', base(a_over={'peer_auth': {"id": "bob.openikev2", "psk": "testing2"}})))
+    out.append(('responder-expects-other-id-type', base(b_over={'peer_auth': {"id": "alice.openikev2", "psk": "testing"}})))
+    out.append(('both-wrong-psk', base(a_over={'peer_auth': {"id": "bob@openikev2", "psk": "aaa-secret-one"}},
+                                       b_over={'peer_auth': {"id": "alice@openikev2", "psk": "bbb-secret-two"}})))
     rsa_a = {"id": "alice@openikev2", "privkey": S.PRIVKEY}
     out.append(('rsa-ok', base(a_over={'my_auth': rsa_a}, b_over={'peer_auth': {"id": "alice@openikev2", "pubkey": S.PUBKEY}})))
     out.append(('rsa-method-mismatch', base(a_over={'my_auth': rsa_a})))
